@@ -12,6 +12,9 @@
 (*   DeserializeOk   a fresh block appears with one owner holding a value    *)
 (*               equal to what T's own deserialiser yields from the input.   *)
 (*   DeserializeErr  T's error comes out unchanged; no block is left behind. *)
+(*   InPlaceOk / InPlaceErr  deserialize_in_place into a (possibly shared)   *)
+(*               handle: a fresh sole owner, or nothing changed at all.      *)
+(* Serializer and deserializer answer is_human_readable() both ways.        *)
 (* Every event is a separate scenario recorded from the real crate with a   *)
 (* recording serializer / token deserializer and fault injection at each    *)
 (* k-th callback and each truncation of the input.                          *)
@@ -52,10 +55,31 @@ DeserializeErrAct ==
     /\ Ev.live_after = blocks'           \* no allocation left behind
     /\ Ev.same_calls = 1
 
-Next == l <= Len(Rec) /\ l' = l + 1 /\ (SerializeAct \/ DeserializeOkAct \/ DeserializeErrAct)
+\* Deserialize::deserialize_in_place(d, &mut handle) with `others` further owners of the old value:
+\* success leaves the handle a fresh sole owner of the new value (the old block loses one owner, or goes away
+\* with its last one); failure leaves everything as it was.  Either way the other owners see nothing change.
+InPlaceOkAct ==
+    /\ Ev.op = "de_in_place" /\ Ev.ok = 1
+    /\ Ev.agree = 1
+    /\ owners' = 1 /\ blocks' = (IF Ev.others > 0 THEN 2 ELSE 1)
+    /\ Ev.count = owners' /\ Ev.moved = 1
+    /\ Ev.others_count = Ev.others          \* the old value keeps exactly its other owners
+    /\ Ev.value_ok = 1 /\ Ev.others_intact = 1
+    /\ Ev.left = 0                        \* nothing is left once every handle is gone
+
+InPlaceErrAct ==
+    /\ Ev.op = "de_in_place" /\ Ev.ok = 0
+    /\ Ev.agree = 1
+    /\ owners' = Ev.others + 1 /\ blocks' = 1
+    /\ Ev.count = owners' /\ Ev.moved = 0
+    /\ (Ev.others > 0 => Ev.others_count = owners')
+    /\ Ev.value_ok = 1 /\ Ev.others_intact = 1
+    /\ Ev.left = 0
+
+Next == l <= Len(Rec) /\ l' = l + 1 /\ (SerializeAct \/ DeserializeOkAct \/ DeserializeErrAct \/ InPlaceOkAct \/ InPlaceErrAct)
 Spec == Init /\ [][Next]_vars
 
-TypeOK == owners \in 0..2 /\ blocks \in 0..1
+TypeOK == owners \in 0..3 /\ blocks \in 0..2
 
 Accepted ==
     LET d == TLCGet("stats").diameter IN
